@@ -19,7 +19,97 @@ F7 = recon.DATE_F + recon.TIME_F
 ADD_PARAMS = ["years", "months", "weeks", "days", "hours", "minutes", "seconds", "microseconds"]
 
 
+ADD_CASES = None
+
+
+def _add_cases():
+    """(base value, keyword arguments) - single-unit steps of both signs around every carry threshold, month counts that cross
+    zero, one and several year boundaries, month-end starts (clamping, leap days), and mixed combinations"""
+    import datetime as _dt
+    import itertools
+    bases = [_dt.datetime(2020, 1, 31, 23, 59, 59, 999999), _dt.datetime(2019, 1, 31, 0, 0, 0), _dt.datetime(2024, 2, 29, 12, 30, 45, 500000),
+             _dt.datetime(2021, 12, 31, 6, 0, 0), _dt.datetime(2021, 3, 15, 12, 30, 45), _dt.datetime(2000, 2, 29, 0, 0, 1), _dt.datetime(2021, 10, 31, 1, 2, 3, 4)]
+    singles = {"years": [1, -1, 4, 100, -21], "months": [1, -1, 2, -2, 11, -11, 12, -12, 13, -13, 24, 25, -25, 37], "weeks": [1, -1, 3], "days": [1, -1, 31, -366, 45],
+               "hours": [1, -1, 23, 24, 25, -24, -25, 49], "minutes": [1, 59, 60, 61, -60, -61, 1441], "seconds": [1, 59, 60, 61, -59, -60, -61, 3661, 86401],
+               "microseconds": [1, -1, 999999, 1000000, 1000001, -1000000, -2000001, 61000001]}
+    out = []
+    for b in bases:
+        out.append((b, {}))
+        for k, vs in singles.items():
+            for v in vs:
+                out.append((b, {k: v}))
+    mixed = [{"years": 1, "months": 1}, {"years": -1, "months": -13}, {"months": 1, "days": -1}, {"months": -1, "days": 30, "hours": 25}, {"weeks": 1, "days": -7},
+             {"hours": 23, "minutes": 59, "seconds": 59, "microseconds": 999999}, {"hours": -23, "minutes": -59, "seconds": -59, "microseconds": -999999},
+             {"minutes": 7, "seconds": 75}, {"minutes": -7, "seconds": -75}, {"seconds": 59, "microseconds": 1000000}, {"years": 3, "months": 11, "weeks": 2, "days": 5, "hours": 30, "minutes": 90, "seconds": 100, "microseconds": 1500000},
+             {"years": -3, "months": -11, "weeks": -2, "days": -5, "hours": -30, "minutes": -90, "seconds": -100, "microseconds": -1500000}, {"months": 14, "hours": -1}, {"months": -14, "hours": 1},
+             {"seconds": 0.5}, {"seconds": 61.25}, {"seconds": -0.75}]
+    for b, kw in itertools.product(bases[:4], mixed):
+        out.append((b, kw))
+    dates = [_dt.date(2020, 1, 31), _dt.date(2024, 2, 29), _dt.date(2021, 12, 31), _dt.date(2021, 3, 15)]
+    for b in dates:
+        for kw in ({}, {"years": 1}, {"months": 1}, {"months": -1}, {"months": 13}, {"months": -25}, {"weeks": 2}, {"days": -45}, {"years": 1, "months": -2, "weeks": 1, "days": 3}):
+            out.append((b, kw))
+        out.append((b, {"hours": 1}))
+        out.append((b, {"days": 1, "microseconds": 1}))
+    return out
+
+
+def add_duration_tabulate(ctx) -> bool | None:
+    """ADD.tabulated: helpers.add_duration run by the checker's interpreter on standard-library datetime / date values for single
+    steps of every unit around each carry threshold (both signs), month counts crossing one and several year boundaries from
+    month-end and leap-day starts, mixed and fractional amounts.  Expected: the month shifted on the proleptic calendar, the
+    day clamped to the length of the target month, then the remaining units added as a fixed length (standard-library
+    timedelta); time units on a plain date are refused."""
+    import calendar
+    import datetime as _dt
+    import math
+    from . import minieval
+    if "ADD.tabulated" in ctx.analysed:
+        return ctx.analysed["ADD.tabulated"]
+    m = pmod("helpers")
+    fn = m.func("add_duration")
+    greg = lambda y: y % 4 == 0 and (y % 100 != 0 or y % 400 == 0)      # noqa: E731
+    bad, n = [], 0
+    try:
+        glob = {"date": _dt.date, "datetime": _dt.datetime, "timedelta": _dt.timedelta, "copysign": math.copysign, "is_leap": greg,
+                "DAYS_PER_MONTHS": core.const("constants", "DAYS_PER_MONTHS"), "RuntimeError": ValueError, "ValueError": ValueError, "math": minieval.Stub(copysign=math.copysign)}
+        funcs = {st.name: st for st in m.top() if isinstance(st, ast.FunctionDef)}
+        for base, kw in _add_cases():
+            n += 1
+            plain_date = not isinstance(base, _dt.datetime)
+            label = f"add_duration({base.isoformat()}, {', '.join(f'{k}={v}' for k, v in kw.items())})"
+            try:
+                got = minieval.call(fn, [base], dict(kw), {**funcs, "$globals": glob})
+            except minieval.Raised as e:
+                if not (plain_date and any(kw.get(k) for k in ("hours", "minutes", "seconds", "microseconds"))):
+                    bad.append(f"{label}: raises {e.exc_name}")
+                continue
+            if plain_date and any(kw.get(k) for k in ("hours", "minutes", "seconds", "microseconds")):
+                bad.append(f"{label}: returns {got!r}; time units on a date must be refused")
+                continue
+            mi = base.year * 12 + base.month - 1 + kw.get("years", 0) * 12 + kw.get("months", 0)
+            y, mo = divmod(mi, 12)
+            mo += 1
+            want = base.replace(year=y, month=mo, day=min(base.day, calendar.monthrange(y, mo)[1])) + _dt.timedelta(
+                weeks=kw.get("weeks", 0), days=kw.get("days", 0), hours=kw.get("hours", 0), minutes=kw.get("minutes", 0), seconds=kw.get("seconds", 0),
+                microseconds=kw.get("microseconds", 0))
+            if got != want or type(got) is not type(want):
+                bad.append(f"{label}: {got!r} (expected {want.isoformat()})")
+    except (core.Unsupported, KeyError, TypeError, AttributeError, IndexError, RecursionError, ValueError, OverflowError) as e:
+        ctx.unverified("ADD.tabulated", "add_duration", f"outside the checker's interpreter: {type(e).__name__}: {e}", m.loc(fn))
+        ctx.analysed["ADD.tabulated"] = None
+        return None
+    ctx.ob("ADD.tabulated", "add_duration", not bad, f"{n} (start value, amount) cases: " + (f"wrong: {bad[:3]}" if bad else
+           "month shift with the day clamped to the target month, then the fixed-length rest - on every case"), m.loc(fn))
+    ctx.analysed["ADD.tabulated"] = not bad
+    if not bad:
+        # how add_duration writes its carries, its month wrap and the clamp is then not a property
+        ctx.established(("UNITS.carry", "ORDER.clamp"), "add_duration", "ADD.tabulated")
+    return not bad
+
+
 def carry_blocks(ctx, rule: str = "UNITS.carry") -> None:
+    add_duration_tabulate(ctx)
     m = pmod("helpers")
     fn = m.func("add_duration")
     seen = set()
@@ -113,6 +203,7 @@ def carry_blocks(ctx, rule: str = "UNITS.carry") -> None:
 
 
 def month_clamp_order(ctx, rule: str = "ORDER.clamp") -> None:
+    add_duration_tabulate(ctx)
     """year/month shift -> overflow fix -> clamp with the *post-overflow* year/month
     -> dt.replace(year, month, day) -> + timedelta."""
     m = pmod("helpers")
